@@ -1,5 +1,6 @@
 import DroopProofs.MonotoneRun
 import DroopProofs.TerminateRun
+import DroopProofs.InvCfer
 
 /-! # Run-level tools shared by the Scottish, CfER and Minneapolis drivers
 
@@ -132,45 +133,49 @@ theorem crash_foldUnpend (l : List (Cand α)) (s : St α) :
 theorem foldElectAll {s : St α} (h : Good A s) (ws : List (Cand α)) (verb : String)
     (hnd : (ws.map (·.cid)).Nodup) (hw : ∀ w ∈ ws, w ∈ s.cands ∧ w.st = .hopeful) :
     let t := ws.foldl (fun acc c => acc.elect A c.cid verb false) s
-    Good A t ∧ nHop t + ws.length = nHop s ∧ nEl t = nEl s + ws.length ∧ Frame s t ∧ Ext s t ∧ t.crash = s.crash := by
+    Good A t ∧ nHop t + ws.length = nHop s ∧ nEl t = nEl s + ws.length ∧ Frame s t ∧ Ext s t ∧ t.crash = s.crash
+    ∧ mu t + ws.length ≤ mu s := by
   have := foldl_hopefuls
     (fun n t => Good A t ∧ nHop t + (ws.length - n) = nHop s ∧ nEl t = nEl s + (ws.length - n) ∧ n ≤ ws.length
-      ∧ Frame s t ∧ Ext s t ∧ t.crash = s.crash)
+      ∧ Frame s t ∧ Ext s t ∧ t.crash = s.crash ∧ mu t + (ws.length - n) ≤ mu s)
     (fun acc c => acc.elect A c.cid verb false)
     (by
       intro n t w hP hwm hwh
-      obtain ⟨hg, a, b, hn, hf, he, hcr⟩ := hP
+      obtain ⟨hg, a, b, hn, hf, he, hcr, hmu⟩ := hP
       have hc := counts_elect A t w verb false hg.1.wf hwm hwh
+      have hlt := mu_elect_lt A t w verb false hg.1.wf hwm hwh
       refine ⟨⟨hg.elect A w verb false hwm hwh (fun hp => by cases hp), by omega, by omega, by omega,
         hf.trans (frame_elect A t w.cid verb false), he.trans (ext_elect A t w.cid verb false),
-        (crash_elect A t w.cid verb false).trans hcr⟩, ?_⟩
+        (crash_elect A t w.cid verb false).trans hcr, by omega⟩, ?_⟩
       intro c hc' hne
       exact mem_elect_of_ne A hc' _ _ _ hne)
-    ws hnd hw ⟨h, by omega, by omega, Nat.le_refl _, Frame.refl s, Ext.refl s, rfl⟩
-  obtain ⟨hg, a, b, _, hf, he, hcr⟩ := this
-  exact ⟨hg, by omega, by omega, hf, he, hcr⟩
+    ws hnd hw ⟨h, by omega, by omega, Nat.le_refl _, Frame.refl s, Ext.refl s, rfl, by omega⟩
+  obtain ⟨hg, a, b, _, hf, he, hcr, hmu⟩ := this
+  exact ⟨hg, by omega, by omega, hf, he, hcr, by omega⟩
 
 /-- defeating every member of a list of distinct hopeful candidates -/
 theorem foldDefeatAll {s : St α} (h : Good A s) (ws : List (Cand α)) (verb : String)
     (hnd : (ws.map (·.cid)).Nodup) (hw : ∀ w ∈ ws, w ∈ s.cands ∧ w.st = .hopeful) :
     let t := ws.foldl (fun acc c => acc.defeat A c.cid verb) s
-    Good A t ∧ nHop t + ws.length = nHop s ∧ nEl t = nEl s ∧ Frame s t ∧ Ext s t ∧ t.crash = s.crash := by
+    Good A t ∧ nHop t + ws.length = nHop s ∧ nEl t = nEl s ∧ Frame s t ∧ Ext s t ∧ t.crash = s.crash
+    ∧ mu t + ws.length ≤ mu s := by
   have := foldl_hopefuls
     (fun n t => Good A t ∧ nHop t + (ws.length - n) = nHop s ∧ nEl t = nEl s ∧ n ≤ ws.length ∧ Frame s t ∧ Ext s t
-      ∧ t.crash = s.crash)
+      ∧ t.crash = s.crash ∧ mu t + (ws.length - n) ≤ mu s)
     (fun acc c => acc.defeat A c.cid verb)
     (by
       intro n t w hP hwm hwh
-      obtain ⟨hg, a, b, hn, hf, he, hcr⟩ := hP
+      obtain ⟨hg, a, b, hn, hf, he, hcr, hmu⟩ := hP
       have hc := counts_defeat A t w verb hg.1.wf hwm hwh
+      have hlt := mu_defeat_lt A t w verb hg.1.wf hwm hwh
       refine ⟨⟨hg.defeat A w verb hwm hwh, by omega, by omega, by omega,
         hf.trans (frame_defeat A t w.cid verb), he.trans (ext_defeat A t w.cid verb),
-        (crash_defeat A t w.cid verb).trans hcr⟩, ?_⟩
+        (crash_defeat A t w.cid verb).trans hcr, by omega⟩, ?_⟩
       intro c hc' hne
       exact mem_defeat_of_ne A hc' _ _ hne)
-    ws hnd hw ⟨h, by omega, rfl, Nat.le_refl _, Frame.refl s, Ext.refl s, rfl⟩
-  obtain ⟨hg, a, b, _, hf, he, hcr⟩ := this
-  exact ⟨hg, by omega, b, hf, he, hcr⟩
+    ws hnd hw ⟨h, by omega, rfl, Nat.le_refl _, Frame.refl s, Ext.refl s, rfl, by omega⟩
+  obtain ⟨hg, a, b, _, hf, he, hcr, hmu⟩ := this
+  exact ⟨hg, by omega, b, hf, he, hcr, by omega⟩
 
 /-- un-pending (silently) every pending candidate -/
 theorem Good.foldUnpend {s : St α} (h : Good A s) :
@@ -347,5 +352,76 @@ theorem Mon.electNP {s : St α} (h : Mon s) (cid : Nat) (verb : String)
   rcases hst c hc hcid with hs | hs
   · simp [hs]
   · simp only [hs]; split <;> simp
+
+theorem stl_upd_keep_st' (s : St α) (cid : Nat) (f : Cand α → Cand α)
+    (hf : ∀ c ∈ s.cands, c.cid = cid → (f c).st = c.st) : (s.upd cid f).stl = s.stl := by
+  unfold St.stl St.upd
+  rw [List.map_map]
+  apply List.map_congr_left
+  intro c hc
+  simp only [Function.comp]
+  split
+  · rename_i h; exact hf c hc (by simpa using h)
+  · rfl
+
+/-- `c.elect(msg)` (no transfer pending) on candidates who are already elected: statuses, counts and the measure stay put
+    or drop -/
+theorem foldElectNP_elected {s : St α} (h : Good A s) (l : List (Cand α)) (verb : String)
+    (hl : ∀ c ∈ l, ∀ x ∈ s.cands, x.cid = c.cid → x.st = .elected) :
+    let t := l.foldl (fun acc c => acc.elect A c.cid verb false) s
+    Good A t ∧ nHop t = nHop s ∧ nEl t = nEl s ∧ Frame s t ∧ Ext s t ∧ t.crash = s.crash := by
+  induction l generalizing s with
+  | nil => exact ⟨h, rfl, rfl, Frame.refl s, Ext.refl s, rfl⟩
+  | cons c cs ih =>
+    simp only [List.foldl_cons]
+    have hel := hl c (by simp)
+    have hg1 : Good A (s.elect A c.cid verb false) :=
+      ⟨h.1.electNP A c.cid verb, h.2.electNP A c.cid verb (fun x hx hxc => Or.inr (hel x hx hxc))⟩
+    have hstl : (s.elect A c.cid verb false).stl = s.stl := by
+      unfold St.elect St.stl; rw [logAct_cands]
+      exact stl_upd_keep_st' s c.cid _ (fun x hx hxc => (hel x hx hxc).symm)
+    have hcnt := counts_of_stl hstl
+    have hl1 : ∀ c' ∈ cs, ∀ x ∈ (s.elect A c.cid verb false).cands, x.cid = c'.cid → x.st = .elected := by
+      intro c' hc' x hx hxc
+      unfold St.elect at hx; rw [logAct_cands] at hx
+      obtain ⟨y, hy, rfl⟩ := mem_upd.1 hx
+      by_cases hyc : (y.cid == c.cid) = true
+      · simp only [hyc, if_true]
+      · have hf : (y.cid == c.cid) = false := by simpa using hyc
+        simp only [hf, Bool.false_eq_true, if_false] at hxc ⊢
+        exact hl c' (by simp [hc']) y hy hxc
+    obtain ⟨a1, a2, a3, a4, a5, a6⟩ := ih hg1 hl1
+    exact ⟨a1, a2.trans hcnt.1, a3.trans hcnt.2, (frame_elect A s c.cid verb false).trans a4,
+      (ext_elect A s c.cid verb false).trans a5, a6.trans (crash_elect A s c.cid verb false)⟩
+
+/-- the log only grows along a loop whose rounds only append (under the round invariant) -/
+theorem loopN_ext (P : St α → Prop) (guard : St α → Bool) (body : St α → St α × Flow)
+    (hP : ∀ s, P s → guard s = true → (body s).2 = .cont → P (body s).1)
+    (hX : ∀ s, P s → guard s = true → Ext s (body s).1) :
+    ∀ (fuel : Nat) (s t : St α), P s → loopN guard body fuel s = some t → Ext s t := by
+  intro fuel
+  induction fuel with
+  | zero => intro s t _ h; simp [loopN] at h
+  | succ n ih =>
+    intro s t hPs h
+    unfold loopN at h
+    by_cases hc : s.crash.isSome = true
+    · simp [hc] at h; cases h; exact Ext.refl _
+    · by_cases hg : guard s = true
+      · simp only [hc, hg, if_true] at h
+        have hP' := hP s hPs hg
+        have hX' := hX s hPs hg
+        cases hbody : body s with
+        | mk s' fl =>
+          rw [hbody] at h hP' hX'
+          cases fl with
+          | cont => exact hX'.trans (ih _ _ (hP' rfl) h)
+          | brk => simp at h; cases h; exact hX'
+      · simp [hc, hg] at h; cases h; exact Ext.refl _
+
+theorem setCrash_isSome (s : St α) (k : String) : (s.setCrash k).crash.isSome = true := by
+  unfold St.setCrash; split
+  · rename_i h; rw [h]; rfl
+  · rfl
 
 end Droop
